@@ -4,7 +4,7 @@ set -e
 out=$1; shift
 here=$(dirname "$0")
 repo=${HEPMC_REPO:-/repo}
-flags="-std=c++11 -O1 -ffp-contract=off -fno-builtin -fno-access-control -I$repo/include -I$here $*"
+flags="-std=c++11 -O1 -ffp-contract=off -fno-builtin -fno-access-control -pthread -I$repo/include -I$here -I$here/../shim $*"
 mkdir -p "$out"
 g++ $flags -DVERIF_T=float -DVERIF_ENTRY=case_float -c "$here/driver_t.cpp" -o "$out/driver_f.o" &
 p1=$!
@@ -16,6 +16,8 @@ g++ $flags -c "$here/main.cpp" -o "$out/main.o" &
 p4=$!
 g++ $flags -c "$here/libmwrap.cpp" -o "$out/libmwrap.o" &
 p5=$!
-wait $p1; wait $p2; wait $p3; wait $p4; wait $p5
-g++ $flags "$out/main.o" "$out/driver_f.o" "$out/driver_d.o" "$out/driver_l.o" "$out/libmwrap.o" \
+g++ $flags -c "$here/mpishim.cpp" -o "$out/mpishim.o" &
+p6=$!
+wait $p1; wait $p2; wait $p3; wait $p4; wait $p5; wait $p6
+g++ $flags "$out/main.o" "$out/driver_f.o" "$out/driver_d.o" "$out/driver_l.o" "$out/libmwrap.o" "$out/mpishim.o" \
   -Wl,--wrap=pow,--wrap=powf,--wrap=powl,--wrap=log,--wrap=logf,--wrap=logl -o "$out/cxx_driver"
